@@ -87,7 +87,7 @@ func init() {
 				rec(m)
 			}
 			// element values at boundary widths, blank, over width, hostile characters in every present tag
-			for name := range base.Tags {
+			for _, name := range sortedKeys(base.Tags) {
 				tt := tagByName[name]
 				for i := range tt.Elems {
 					if !thorough && rng.Intn(3) != 0 {
